@@ -38,6 +38,22 @@ Proof.
   - intros n x xs o ->. reflexivity.
 Qed.
 
+(* two handlers declared for one reply name exclude each other exactly when they name the same outcome or one of them is
+   `always` - in either order of declaration (`ReplyOn::excludes`, parser/attributes/msg.rs) *)
+Theorem c18_translated_reply_outcomes_exclude : forall d (a b : outcome),
+  calls check_fns (S d) "ReplyOn::excludes" [outcome_v a; outcome_v b] (CVal (VBool (outcome_eqb a b || is_always a || is_always b))) /\
+  calls check_fns (S d) "ReplyOn::excludes" [outcome_v b; outcome_v a] (CVal (VBool (outcome_eqb a b || is_always a || is_always b))).
+Proof.
+  intros d a b. split; [apply translated_reply_on_excludes|].
+  rewrite (excludes_is_symmetric a b). apply translated_reply_on_excludes.
+Qed.
+
+(* the outcome names a handler may be declared for: exactly `success`, `error`, `always`; anything else is an error *)
+Theorem c18_translated_reply_outcome_names : forall d (s : string),
+  exists e, calls check_fns (S d) "ReplyOn::new" [VStr s]
+    (CVal (match outcome_of_name s with Some o => VCon "Ok" [outcome_v o] | None => VCon "Err" [e] end)).
+Proof. exact translated_reply_on_new. Qed.
+
 Example c18_structural_example :
   new_method_diags [Other (VStr "const X"); Method "helper" [VStr "&self"] (VStr ""); Method "new" [] (VStr "pub const fn")] = [] /\
   new_method_diags [Method "new" [VStr "owner: Addr"] (VStr "")] = [VStr "Parameters not allowed in `new` method."] /\
@@ -47,3 +63,5 @@ Proof. vm_compute. repeat split; reflexivity. Qed.
 Print Assumptions c18_translated_missing_or_duplicated_handler.
 Print Assumptions c18_translated_constructor_check.
 Print Assumptions c18_translated_constructor_verdicts.
+Print Assumptions c18_translated_reply_outcomes_exclude.
+Print Assumptions c18_translated_reply_outcome_names.
